@@ -375,7 +375,7 @@ func C19(c *run.Check) {
 		}
 	}
 	run.ParallelW(len(jobs), func(w, ji int) {
-		if !triage && c.Violations() > 0 {
+		if (!triage && c.Violations() > 0) || c.TimeUp() {
 			return
 		}
 		j := jobs[ji]
